@@ -269,13 +269,17 @@ var plans = map[string]*propertyPlan{
 					Files     []string `json:"files"`
 				}
 				json.Unmarshal([]byte(o), &r)
-				okGen := !r.ExitError && r.RespErr == "" && len(r.Files) == 1
+				okGen := !r.ExitError && r.RespErr == "" && len(r.Files) == 2
 				structOblig(res, "gen/accepts[synthetic service with imported message types]", okGen, truncate(o, 400), "C16")
 				if okGen {
-					b, _ := os.ReadFile(filepath.Join(sdir, r.Files[0]))
-					ov := map[string][]byte{filepath.Join(RepoDir, "internal", "zzsynth", "synth_gorums.pb.go"): b}
-					_, serr := Load(RepoDir, []string{modPath + "/internal/zzsynth"}, ov)
-					d := "the code generated for the synthetic service type-checks (package overlaid at internal/zzsynth, nothing written to the repository)"
+					// two files generated in one plugin run (same method names, different call types)
+					ov := map[string][]byte{}
+					for _, fn := range r.Files {
+						b, _ := os.ReadFile(filepath.Join(sdir, fn))
+						ov[filepath.Join(RepoDir, "internal", fn)] = b
+					}
+					_, serr := Load(RepoDir, []string{modPath + "/internal/zzsynth", modPath + "/internal/zzsynth2"}, ov)
+					d := "the code generated for the two synthetic services type-checks (packages overlaid at internal/zzsynth*, nothing written to the repository)"
 					if serr != nil {
 						d = "the code generated for the synthetic service does not compile: " + truncate(serr.Error(), 1500)
 					}
